@@ -1,8 +1,8 @@
 (* Props/C20.v — merging and histogramming conserve every spike.
    Only statements, `exact`, Print Assumptions and non-vacuity examples. *)
-From Coq Require Import List Bool Arith Reals Lra Sorted Permutation.
+From Coq Require Import List Bool Arith Reals Lra Lia Sorted Permutation.
 Import ListNotations.
-From PS Require Import Num RLemmas Valid ModelKernels ModelFuncs ModelAPI Spec Lem_Lists.
+From PS Require Import Num RLemmas Valid ModelKernels ModelFuncs ModelAPI Spec Lem_Lists ModelIO Lem_IO.
 Require Import PS.Props.PropTac.
 Local Open Scope R_scope.
 
@@ -28,6 +28,39 @@ Theorem C20_counts_sum : forall edges xs, ssorted edges -> (2 <= length edges)%n
   INR (length (filter (fun x => nleb ROps (hd 0 edges) x && nleb ROps x (last edges 0)) xs)).
 Proof. exact hist_counts_total. Qed.
 Print Assumptions C20_counts_sum.
+
+(* PSTH bins: n+1 equally spaced edges spanning the recording (np.linspace), strictly increasing *)
+Theorem C20_psth_bins : forall ts te n, (0 < n)%nat ->
+  length (psth_edges ROps ts te n) = S n /\ hd 0 (psth_edges ROps ts te n) = ts /\ last (psth_edges ROps ts te n) 0 = te /\
+  (forall k, (k < n)%nat -> nth (S k) (psth_edges ROps ts te n) 0 - nth k (psth_edges ROps ts te n) 0 = (te - ts) / INR n).
+Proof. exact psth_edges_spec. Qed.
+Print Assumptions C20_psth_bins.
+Theorem C20_psth_bins_increasing : forall ts te n, ts < te -> (0 < n)%nat -> ssorted (psth_edges ROps ts te n).
+Proof. exact psth_edges_sorted. Qed.
+Print Assumptions C20_psth_bins_increasing.
+(* hence the PSTH values sum to the number of pooled spikes inside the recording *)
+Theorem C20_psth_conserves_spikes : forall ts te n xs, ts < te -> (0 < n)%nat ->
+  sumF ROps (psth_counts ROps ts te n xs) =
+  INR (length (filter (fun x => nleb ROps ts x && nleb ROps x te) xs)).
+Proof.
+  intros ts te n xs Hlt Hn. unfold psth_counts.
+  destruct (psth_edges_spec ts te n Hn) as (Hl & Hh & Hla & _).
+  rewrite hist_counts_total; [rewrite Hh, Hla; reflexivity | apply psth_edges_sorted; assumption | rewrite Hl; lia].
+Qed.
+Print Assumptions C20_psth_conserves_spikes.
+
+(* Poisson generator given its (positive) exponential draws: sorted, strictly inside (t0, t1),
+   and exactly the cumulative sums below t1 (nothing dropped, nothing added) *)
+Theorem C20_poisson_sorted_inside : forall t0 t1 draws, Forall (fun d => 0 < d) draws ->
+  let s := poisson_spikes ROps t0 t1 draws in ssorted s /\ Forall (fun x => t0 < x < t1) s.
+Proof. exact poisson_spec. Qed.
+Print Assumptions C20_poisson_sorted_inside.
+Theorem C20_poisson_prefix : forall t0 t1 draws, Forall (fun d => 0 < d) draws ->
+  let cums := poisson_cumsums ROps t0 draws in
+  let k := length (filter (fun x => Rltb x t1) cums) in
+  poisson_spikes ROps t0 t1 draws = firstn k cums /\ (forall x, In x (skipn k cums) -> t1 <= x).
+Proof. exact poisson_prefix. Qed.
+Print Assumptions C20_poisson_prefix.
 
 Example C20_nonvacuous : ssorted [0; 1/4; 1/2; 3/4; 1] /\ (2 <= length [0; 1/4; 1/2; 3/4; 1])%nat.
 Proof. split; [valid_tac | cbn; auto with arith]. Qed.
